@@ -95,7 +95,9 @@ def check(repo: Repo, rep: Report) -> None:
         while n_ is not None and not isinstance(n_, ast.If):
             n_ = par.get(n_)
         if isinstance(n_, ast.If):
-            parts = n_.test.values if isinstance(n_.test, ast.BoolOp) and isinstance(n_.test.op, ast.Or) else [n_.test]
+            from ..rules import effective_test
+            tst = effective_test(tf, n_.test)
+            parts = tst.values if isinstance(tst, ast.BoolOp) and isinstance(tst.op, ast.Or) else [tst]
             incl = first = False
             for p_ in parts:
                 r = compare_norm(p_, lambda x: isinstance(x, ast.BinOp) and isinstance(x.op, ast.Sub))
